@@ -201,9 +201,18 @@ class ND:
             return Fn(model=lambda ex, st, a, k: self.unsqueeze(a[0]), name=name)
         if name == "sum":
             return Fn(model=lambda ex, st, a, k: self.sum(k.get("dim", a[0] if a else None)), name=name)
-        if name == "device":
+        if name in ("min", "max") :
+            def ext(ex, st, a, k, name=name):
+                from .tensors import toreal
+                es = [toreal(e) for e in self.elements()]
+                r = es[0]
+                for e in es[1:]:
+                    r = z3.If(e < r, e, r) if name == "min" else z3.If(e > r, e, r)
+                return r
+            return Fn(model=ext, name=name)
+        if name in ("device", "dtype"):
             from pyvc.values import Opaque
-            return Opaque("device")
+            return Opaque(name)
         raise Undecided(f"tensor attribute {name}")
 
     def sum(self, d):
@@ -332,6 +341,39 @@ class ND:
 
     def iop(self, ex, st, op, other):
         return self.binop(ex, st, op, other, False)
+
+    def compare(self, ex, st, op, other, swapped):
+        """element-wise comparison with a scalar or a same-shape tensor: a tensor of z3 Booleans"""
+        from .tensors import toreal
+        ops = {ast.Eq: lambda a, b: a == b, ast.NotEq: lambda a, b: a != b, ast.Lt: lambda a, b: a < b, ast.LtE: lambda a, b: a <= b,
+               ast.Gt: lambda a, b: a > b, ast.GtE: lambda a, b: a >= b}
+        f = ops.get(type(op))
+        if f is None:
+            raise Undecided("tensor comparison operator")
+        if isinstance(other, ND):
+            if not (len(other.shape) == len(self.shape) and all(same_dim(p, q) for p, q in zip(other.shape, self.shape))):
+                raise Undecided("comparison of tensors of different shapes")
+            g = lambda idx: (toreal(other.at(idx)), toreal(self.at(idx))) if swapped else (toreal(self.at(idx)), toreal(other.at(idx)))
+        else:
+            o = toreal(other)
+            g = lambda idx: (o, toreal(self.at(idx))) if swapped else (toreal(self.at(idx)), o)
+        return self.with_(at=lambda idx: f(*g(idx)))
+
+    def elements(self):
+        """all elements of a tensor whose dimensions are concrete"""
+        import itertools
+        dims = []
+        for d in self.shape:
+            c, b = cp(d)
+            if b is not None:
+                raise Undecided("enumeration over a symbolic dimension")
+            dims.append(range(c))
+        return [self.at([z3.IntVal(i) for i in idx]) for idx in itertools.product(*dims)]
+
+    def contains(self, ex, st, item):
+        from .tensors import toreal
+        it = toreal(item)
+        return z3.Or(*[toreal(e) == it for e in self.elements()])
 
     def _index(self, ex, st, idx):
         if not self.shape:
@@ -529,6 +571,21 @@ def full_like(ex, st, a, k):
     return a[0].with_(at=lambda idx: v)
 
 
+def np_all(ex, st, a, k):
+    x = a[0]
+    if isinstance(x, ND):
+        es = x.elements()
+        return z3.And(*[e if isinstance(e, z3.BoolRef) else e != 0 for e in es])
+    raise Undecided("numpy.all of a non-tensor")
+
+
+def one_hot(ex, st, a, k):
+    x, n = a[0], k.get("num_classes", a[1] if len(a) > 1 else None)
+    if not isinstance(x, ND) or not isinstance(n, int):
+        raise Undecided("one_hot with symbolic class count")
+    return x.with_(list(x.shape) + [n], lambda idx: z3.If(x.at(list(idx[:-1])) == z3.ToReal(z3ify(idx[-1])), z3.RealVal(1), z3.RealVal(0)))
+
+
 def as_np(ex, st, a, k):
     x = a[0]
     if isinstance(x, ND):
@@ -555,7 +612,7 @@ def expand_dims(ex, st, a, k):
     return a[0].unsqueeze(a[1] if len(a) > 1 else k["axis"])
 
 
-LIB = {"torch.stack": stack, "torch.cat": cat_any, "torch.unbind": unbind, "torch.split": split, "torch.where": where, "torch.full_like": full_like,
+LIB = {"numpy.all": np_all, "torch.nn.functional.one_hot": one_hot, "torch.tensor": lambda ex, st, a, k: as_torch(ex, st, a, k), "torch.stack": stack, "torch.cat": cat_any, "torch.unbind": unbind, "torch.split": split, "torch.where": where, "torch.full_like": full_like,
        "torch.as_tensor": as_torch, "numpy.array": as_np, "torch.Tensor": as_torch, "torch.from_numpy": as_torch,
        "torch.zeros_like": zeros_like, "numpy.expand_dims": expand_dims}
 DOC = ("exact N-d tensor model (contracts/ndt.py): torch.stack, torch.cat, unbind, split, where, full_like, sum over a concrete dimension, reshape/view incl. -1, transpose, squeeze, unsqueeze/expand_dims, "
